@@ -103,6 +103,7 @@ func runC01(c *Ctx, r *Rec) {
 
 	checkReceiverWrites(c, r, "D4-receiver-writes-persist", lst)
 	checkResetCompleteness(c, r, "D4-reset-complete", lst)
+	checkReadersWriteNothing(c, r, "D4-readers-write-nothing", lst)
 	checkTypeLockPairing(c, r, "D4-lock-released", lst)
 	checkTypeLockPairing(c, r, "D4-lock-released", arr)
 	checkReceiverWrites(c, r, "D4-receiver-writes-persist", arr)
